@@ -10,7 +10,7 @@ ID = "C06"
 RUN_MODULE = "Model.Lock Run.C06"
 EXPLAIN = "explain"
 RULE = ("2-4 real asyncio tasks entering sections guarded by cache.lock / @cache.locked on a coroutine function (constant key, or a key template over the arguments with positional and keyword call forms) / @cache.locked on an async generator / backend.lock on 1-2 keys (the second key lives on a second backend the facade routes to by prefix; in one case out of five the facade has no default backend at all), lock ttl 1 / 1.5 / 2 s (spelled as float / int / timedelta / string through the facade), section "
-        "durations 0-3 x ttl (some overstay; one body in five ends with an exception), wait=True (check_interval 0 or 0.125 s) and wait=False, plus unlock calls with a foreign token; in every other case one more task asks is_locked about the contended key once or twice - plain form or is_locked(wait, step) with wait 0.5 / 1 / 1.25 s and step 0.125 / 0.25 / 0.375 s, on the backend or through the facade - and every poll it makes is recorded in the trace; "
+        "durations 0-3 x ttl (some overstay; one body in five ends with an exception), wait=True (check_interval 0 or 0.125 s) and wait=False, plus unlock calls with a foreign token; in every other case one more task asks is_locked about the contended key once or twice - plain form or is_locked(wait, step) with wait 0.5 / 1 / 1.25 s and step 0.125 / 0.25 / 0.375 s, on the backend or through the facade - and every poll it makes, its answer and the time it took are recorded in the trace; "
         "every set_lock / unlock / ping of the Memory instance is gated, the schedule (which parked task runs next, when the clock advances to "
         "the next timer, which designated task gets cancelled) is a seeded list of choices - all schedules of length <= 7 for two tasks in the "
         "thorough tier; purge task on (0.25 s) or off. Observed: every lock command with its result and the start and end of every guarded body, in execution order, and per task how it ended (entered, LockedError, cancelled) with its number of attempts. non-trivial: at least "
@@ -132,12 +132,15 @@ def run_impl(case):
                 await asyncio.sleep(probe["start"] * TICK)
                 for _ in range(2 if probe["again"] else 1):
                     w, st = probe["wait"], probe["step"]
-                    probes.append([0 if w is None else -(-w // st), [], None])
+                    probes.append([0 if w is None else -(-w // st), [], None, st, drv.tick(), None])
                     target = cache if probe["facade"] else mem
                     if w is None:
                         probes[-1][2] = bool(await target.is_locked(keyname["L"]))
                     else:
                         probes[-1][2] = bool(await target.is_locked(keyname["L"], wait=w * TICK, step=st * TICK))
+                    # what the call answered, at the point of the trace where it answered: checked against the key's liveness there
+                    events.append([keyname["L"], "poll", -1, 0, probes[-1][2], drv.tick()])
+                    probes[-1][5] = drv.tick()
                     await asyncio.sleep(3 * TICK)
 
             async def worker(i, spec):
@@ -246,7 +249,8 @@ def to_coq(case, obs):
         tries = [e for e in obs["events"] if e[1] == "try" and e[2] == i]
         pol.append((bool(spec["wait"]), Nat(sum(1 for e in tries if not e[4])), Nat(len(tries)), Nat(code.get(outcomes.get(str(i)), 3))))
     # a call that never returned (the run was stopped) is reported as answering the opposite of its polls
-    probes = [(Nat(n), [bool(b) for b in polls], (not all(polls)) if r is None else bool(r)) for n, polls, r in (obs["result"] or {}).get("probes", [])]
+    probes = [(Nat(n), Nat(st), Nat(0 if t1 is None else t1 - t0), [bool(b) for b in polls], (not (polls or [False])[-1]) if r is None else bool(r))
+              for n, polls, r, st, t0, t1 in (obs["result"] or {}).get("probes", [])]
     return C("CLock", traces, pol, probes)
 
 
@@ -261,7 +265,7 @@ def classify(case, obs):
     for e in obs["events"]:
         if e[1] in ("in", "out"): continue
         d[e[1] + ("_ok" if e[4] else "_fail")] = d.get(e[1] + ("_ok" if e[4] else "_fail"), 0) + 1
-    for n, polls, r in (obs["result"] or {}).get("probes", []):
+    for n, polls, r, *_ in (obs["result"] or {}).get("probes", []):
         k = "is_locked_" + ("plain" if n == 0 else "wait") + ("_true" if r else "_false")
         d[k] = d.get(k, 0) + 1
         d["is_locked_polls"] = d.get("is_locked_polls", 0) + len(polls)
